@@ -811,6 +811,151 @@ def rule_e12(ctx, rule_id: str = "C07-E12") -> None:
             ctx.finding(rule_id, "CheckCarbonBalance.process_reaction:fragments-not-self-contained:%s" % name, f.loc(node), "the fragments of %s are counted one by one although the side was never parsed as a whole: with a ring closure across a dot (C1.O1) the fragments do not parse, count as zero, and a reaction whose products hold more carbon is labelled balanced" % name)
 
 
+def rule_e13(ctx, rule_id: str = "C07-E13") -> None:
+    """The per-fragment count behind the carbon label counts atoms *of the element*: every atom of the parsed molecule,
+    tested by element symbol or atomic number.  A count through a substructure query is element-exact only for an
+    atomic-number primitive ([#6]); a bare symbol used as SMARTS matches aliphatic (or aromatic) atoms only."""
+    ctx.rule(rule_id, "the fragment count is over every atom of the parsed molecule, tested by element (symbol or atomic number)", 1)
+    prog = ctx.prog
+    cnt = prog.func("synrbl.SynProcessor.check_carbon_balance.CheckCarbonBalance.count_atoms")
+    type_params = [p for p in cnt.params if "type" in p or "symbol" in p or "element" in p]
+    ctx.require(type_params, "count_atoms lost its atom type parameter")
+    tp = type_params[0]
+    # the functions the count is computed in: count_atoms and the package functions it hands the atom type to
+    funcs = [(cnt, tp)]
+    for c in [x for x in own_nodes(cnt.node) if isinstance(x, ast.Call)]:
+        tgt = ctx.res.resolve_callee(c, cnt)
+        g = prog.functions.get(tgt[1]) if tgt and tgt[0] == "func" else None
+        if g is None:
+            continue
+        params = list(g.params)
+        for i, a in enumerate(c.args):
+            if isinstance(a, ast.Name) and a.id == tp and i < len(params):
+                funcs.append((g, params[i]))
+        for k in c.keywords:
+            if isinstance(k.value, ast.Name) and k.value.id == tp and k.arg in params:
+                funcs.append((g, k.arg))
+    by_element = False
+    smarts = []
+    for g, pname in funcs:
+        for n in own_nodes(g.node):
+            if isinstance(n, ast.Compare) and len(n.ops) == 1 and isinstance(n.ops[0], ast.Eq):
+                sides = [n.left, n.comparators[0]]
+                texts_ = [unparse(x) for x in sides]
+                if any(t.endswith(".GetSymbol()") or t.endswith(".GetAtomicNum()") for t in texts_) and any(isinstance(x, ast.Name) and x.id == pname for x in sides):
+                    # over GetAtoms() of the parsed molecule?
+                    comp = n
+                    while comp is not None and not isinstance(comp, (ast.GeneratorExp, ast.ListComp, ast.For)):
+                        comp = getattr(comp, "_parent", None)
+                    it = None
+                    if isinstance(comp, ast.For):
+                        it = comp.iter
+                    elif comp is not None:
+                        it = comp.generators[0].iter
+                    if it is not None and unparse(it).endswith(".GetAtoms()"):
+                        by_element = True
+            if isinstance(n, ast.Call) and unparse(n.func).split(".")[-1] in ("MolFromSmarts", "GetSubstructMatches", "GetSubstructMatch", "HasSubstructMatch"):
+                if unparse(n.func).split(".")[-1] == "MolFromSmarts":
+                    a = n.args[0] if n.args else None
+                    exact = a is not None and any(isinstance(x, ast.Constant) and isinstance(x.value, str) and "[#" in x.value for x in ast.walk(a))
+                    smarts.append((g, n, exact))
+    bad = [(g, n) for g, n, exact in smarts if not exact]
+    ok = by_element and not bad or (not by_element and smarts and not bad)
+    ctx.instance(rule_id, "count_atoms: per-atom element test over GetAtoms(): %s; substructure queries: %d (%d not by atomic number)" % (by_element, len(smarts), len(bad)), cnt.loc(), ok=bool(ok))
+    if bad:
+        g, n = bad[0]
+        ctx.finding(rule_id, "CheckCarbonBalance.count_atoms:count-by-smarts-symbol", g.loc(n), "the atoms of the element are counted with a substructure query built from the bare symbol (%s): as SMARTS, 'C' matches aliphatic carbon only, so aromatic atoms are not counted and a balanced reaction that (de)aromatises a ring is labelled carbon-unbalanced" % unparse(n)[:60])
+    elif not by_element and not smarts:
+        raise AnalysisError("%s: the form in which count_atoms counts the atoms of the element is not modelled" % cnt.loc())
+
+
+def rule_e14(ctx, rule_id: str = "C07-E14") -> None:
+    """The comparator is handed the compositions the rows keep (`reactants` / `products` formula columns are the same
+    dict objects when the comparison runs in-process): comparing must not change them.  Parameters of the comparator's
+    functions - and plain aliases of them - are read only."""
+    ctx.rule(rule_id, "the comparator's functions do not mutate the compositions they are given (aliases included)", 2)
+    prog = ctx.prog
+    cls = prog.cls("synrbl.SynProcessor.rsmi_comparator.RSMIComparator")
+    MUT = {"pop", "popitem", "clear", "update", "setdefault", "__setitem__", "__delitem__", "subtract"}
+    n = 0
+    for name, f in sorted(cls.methods.items()):
+        if name.startswith("__"):
+            continue
+        params = [p for p in f.params if p not in ("self", "cls")]
+        alias = {p: p for p in params}
+        for _ in range(4):
+            for st in own_nodes(f.node):
+                if isinstance(st, ast.Assign) and isinstance(st.value, ast.Name) and st.value.id in alias:
+                    for t in st.targets:
+                        if isinstance(t, ast.Name) and t.id not in alias:
+                            alias[t.id] = alias[st.value.id]
+        # names re-bound to a fresh object lose the alias (x = dict(x), x = x.copy())
+        for nm in list(alias):
+            if nm in params:
+                continue
+            defs = assignments_to(f, nm)
+            if any(not (isinstance(v, ast.Name) and v.id in alias) for _s, v, _i in defs):
+                alias.pop(nm)
+        n += 1
+        hits = []
+        for x in own_nodes(f.node):
+            tgt = None
+            if isinstance(x, ast.Call) and isinstance(x.func, ast.Attribute) and isinstance(x.func.value, ast.Name) and x.func.value.id in alias and x.func.attr in MUT:
+                tgt = x.func.value.id
+            elif isinstance(x, (ast.Assign, ast.AugAssign, ast.Delete)):
+                ts = x.targets if isinstance(x, (ast.Assign, ast.Delete)) else [x.target]
+                for t in ts:
+                    if isinstance(t, ast.Subscript) and isinstance(t.value, ast.Name) and t.value.id in alias:
+                        tgt = t.value.id
+            if tgt is not None:
+                # a parameter re-bound to a copy before the edit is the function's own object
+                if tgt in params and any(isinstance(v, ast.Call) for _s, v, _i in assignments_to(f, tgt)):
+                    continue
+                hits.append((x, tgt))
+        ctx.instance(rule_id, "RSMIComparator.%s: parameters %s are only read" % (name, params), f.loc(), ok=not hits)
+        for x, tgt in hits[:1]:
+            ctx.finding(rule_id, "RSMIComparator.%s:mutates-argument:%s" % (name, alias[tgt]), f.loc(x), "%s changes the composition it was given (%s, through `%s`): run in-process (n_jobs=1) the dictionary is the one the row keeps as its formula, so the recorded composition of that side no longer matches the reaction" % (name, alias[tgt], unparse(x)[:50]))
+    ctx.require(n >= 2, "RSMIComparator lost its comparison functions")
+
+
+def rule_e15(ctx, rule_id: str = "C07-E15") -> None:
+    """Reactant and product side are the two parts around the whole separator.  A single '>' is not a separator: it also
+    occurs inside molecules (the dative bond `->`, e.g. `[NH3]->[Cu]`), so a split at a part of the separator cuts
+    such a molecule in two and the sides handed to the decomposer are not the sides of the reaction."""
+    from ..constfold import Folder, Unfoldable
+
+    ctx.rule(rule_id, "reaction text is split at the whole separator, never at a part of it", 3)
+    prog = ctx.prog
+    n = 0
+    for q, f in sorted(prog.functions.items()):
+        if not q.startswith("synrbl."):
+            continue
+        denv = {}
+        for pn, d in f.param_defaults().items():
+            if isinstance(d, ast.Constant):
+                denv[pn] = d.value
+        for c in calls(f):
+            if not (isinstance(c.func, ast.Attribute) and c.func.attr in ("split", "rsplit", "partition", "rpartition") and c.args):
+                continue
+            a = c.args[0]
+            try:
+                fo = Folder(f.module, f)
+                fo.prog = prog
+                v = fo.fold(a, dict(denv))
+            except Unfoldable:
+                continue
+            except Exception:
+                continue
+            if not (isinstance(v, str) and ">" in v):
+                continue
+            n += 1
+            ok = v == ">>"
+            ctx.instance(rule_id, "%s: %s splits at %r" % (q.split("synrbl.", 1)[-1], unparse(c)[:50], v), f.loc(c), ok=ok)
+            if not ok:
+                ctx.finding(rule_id, "%s:split-at-partial-separator" % q.split("synrbl.", 1)[-1], f.loc(c), "%s splits the reaction at %r, which is only a part of the separator '>>': '>' also occurs inside a molecule (dative bond '->'), so such a reaction is cut inside a molecule and the compositions are taken from the wrong pieces" % (unparse(c)[:50], v))
+    ctx.require(n >= 3, "fewer than 3 separator splits found in the package (%d)" % n)
+
+
 def rule_e7(ctx) -> None:
     """The carbon-count memo is keyed by the SMILES only although the count
     also depends on the atom type: sound only while the memo lives on an
@@ -908,3 +1053,6 @@ def check(ctx) -> None:
 
     c01.rule_r2(ctx, Pipeline(ctx), "C07-E11")
     rule_e12(ctx)
+    rule_e13(ctx)
+    rule_e14(ctx)
+    rule_e15(ctx)
